@@ -1,12 +1,310 @@
-(* Properties_C13.v — Tuple sketches keep theta-sketch keys and exact per-key summaries (statements only). *)
-From Coq Require Import ZArith NArith List Bool Lia.
-From DS Require Import Word Murmur3 RunnerLib OpenAddr KSmallest Canon ThetaDefs TupleDefs.
+(* Properties_C13.v — Tuple sketches keep theta-sketch keys and exact per-key summaries.
+   Statements only; proofs live in TupleProofs.v (per-key fold), TupleErase.v (same keys as a Theta sketch),
+   TupleSetProofs.v (filter, A-not-B, intersection), TupleUnionProofs.v (union), TupleArray.v (array-of-doubles) and
+   the C01 files (ThetaProofs / ThetaRefine / ThetaFacts: the table model, polymorphic in the payload).
+
+   Setting: the executable model TupleDefs.v — the Theta table of ThetaDefs.v carrying a summary per key, driven by
+   the tuple update policy ([tup_f]: create() then update() on first sight, update() on repeat), and the set
+   operations as coded in theta_*_base_impl.hpp.  Quantification:
+   - summary type S, update type U and the policies create / upd / comb are ARBITRARY (no algebraic law assumed),
+   - the 64-bit hash of every update is arbitrary (any hash function, any keys, any repetition),
+   - std::nth_element is ANY function meeting its postcondition,
+   - any lg_k >= 5, resize factor and starting theta; every history of update / trim / reset,
+   - set operations: any list of well-formed inputs ([cwf]: distinct keys, no entries when empty, strictly increasing
+     when flagged ordered), in any physical form (ordered or not), any presentation order. *)
+From Coq Require Import ZArith NArith List Bool Lia Permutation Sorted.
+From DS Require Import Word Murmur3 RunnerLib OpenAddr KSmallest Canon ThetaDefs ThetaProofs ThetaRefine ThetaFacts
+  TupleDefs TupleProofs TupleErase TupleSetProofs TupleUnionProofs TupleWf TupleMore TupleArray TupleBridge.
+From DS Require ThetaSetDefs.
 Import ListNotations.
+Local Open Scope N_scope.
 
-(* the line protocol drives the polymorphic update with the policy adapter *)
-Theorem C13_protocol_trim : forall st r pol seed k e,
-  reg_get st r = Some (RU pol seed k) ->
-  fst (step st [3; r]%Z e) = reg_set st r (RU pol seed (trim sm ssel k)).
-Proof. intros st r pol seed k e H. unfold step. rewrite H. reflexivity. Qed.
+(* ------------------------------------------------------------------------------------------ *)
+Section UpdateSketch.
+  Variables S U : Type.
+  Variable create : S.
+  Variable upd : S -> U -> S.
+  Variable sel : nat -> list (N * S) -> list (N * S).
+  Hypothesis sel_ok : forall k l, (k < length l)%nat -> nth_post fst k l (sel k l).
+  Variables lgn r th0 : N.
+  Hypothesis lgn_ge : 5 <= lgn.
+  Notation trun ts := (run_ops S sel lgn r th0 (map (op_of_top S U create upd) ts)).
 
-Print Assumptions C13_protocol_trim.
+  (* the Theta sketch fed the same keys (payload unit), with ITS OWN nth_element *)
+  Definition theta_ops (ts : list (top U)) : list (op unit) :=
+    map (fun t => match t with TUpdate h _ => OpUpdate h unit_upd | TTrim => OpTrim | TReset => OpReset end) ts.
+
+  (* a tuple sketch retains exactly the keys of a Theta sketch with the same configuration: same lg_cur_size, theta,
+     is_empty, num_entries, reported theta and the same sorted keys, after every history *)
+  Theorem C13_same_keys_as_theta_sketch :
+    forall (sel2 : nat -> list (N * unit) -> list (N * unit)),
+    (forall k l, (k < length l)%nat -> nth_post fst k l (sel2 k l)) ->
+    forall ts, let s := trun ts in let t := run_ops unit sel2 lgn r th0 (theta_ops ts) in
+    lg_cur s = lg_cur t /\ theta s = theta t /\ is_empty s = is_empty t /\ num s = num t /\
+    get_theta64 S s = get_theta64 unit t /\
+    Permutation (keys S s) (keys unit t) /\ sortN (keys S s) = sortN (keys unit t).
+  Proof.
+    intros sel2 sel2_ok ts. apply (same_keys S unit sel sel2 sel_ok sel2_ok lgn r th0 lgn_ge).
+    unfold theta_ops. rewrite !map_map. apply map_ext. intros [h u| |]; reflexivity.
+  Qed.
+
+  (* ... which are the distinct non-zero hashes offered since the last reset that are below theta, each once *)
+  Theorem C13_keys_are_the_theta_sample : forall ts, let s := trun ts in
+    NoDup (keys S s) /\
+    (forall h, In h (keys S s) <-> In h (seen_of (map (op_of_top S U create upd) ts)) /\ 0 < h < theta s) /\
+    num s = N.of_nat (length (keys S s)).
+  Proof. intros ts. exact (refines S sel sel_ok lgn r th0 lgn_ge _). Qed.
+
+  (* the summary of every retained key = the update policy folded over every value offered with that key since the
+     last reset, in arrival order, starting from create() — across resize, rebuild and trim *)
+  Theorem C13_summary_is_fold : forall ts h v, In (h, v) (entries S (trun ts)) ->
+    offered_with U h ts [] <> [] /\ v = fold_policy S U create upd (offered_with U h ts []).
+  Proof. exact (summary_is_fold S U create upd sel sel_ok lgn r th0 lgn_ge). Qed.
+
+  (* compact(ordered): same theta, emptiness and (key, summary) pairs; hence the same per-key folds *)
+  Theorem C13_compact_keeps_summaries : forall ts ordered h v,
+    let c := compact_of S (trun ts) ordered in
+    (c_theta c = get_theta64 S (trun ts) /\ c_empty c = is_empty (trun ts) /\
+     Permutation (c_entries c) (entries S (trun ts)) /\ cwf S c) /\
+    (In (h, v) (c_entries c) -> v = fold_policy S U create upd (offered_with U h ts [])).
+  Proof.
+    intros ts ordered h v c.
+    destruct (compact_same S sel sel_ok lgn r th0 lgn_ge (map (op_of_top S U create upd) ts) ordered)
+      as (H1 & H2 & H3 & _ & H5). split; [auto|].
+    intros Hin. eapply Permutation_in in Hin; [|exact H3].
+    now destruct (summary_is_fold S U create upd sel sel_ok lgn r th0 lgn_ge ts h v Hin).
+  Qed.
+End UpdateSketch.
+
+(* the general form behind C13_summary_is_fold: ANY payload functions, composed in arrival order *)
+Theorem C13_payload_is_composition : forall S sel,
+  (forall k l, (k < length l)%nat -> nth_post fst k l (sel k l)) ->
+  forall lgn r th0, 5 <= lgn -> forall ops h v,
+  In (h, v) (entries S (run_ops S sel lgn r th0 ops)) -> pay_of h ops = Some v.
+Proof. intros S sel sel_ok lgn r th0 Hk. exact (run_pay S sel sel_ok lgn r th0 Hk). Qed.
+
+(* ------------------------------------------------------------------------------------------ *)
+Section SetOperations.
+  Variable S : Type.
+  Variable comb : S -> S -> S.             (* ANY union / intersection policy *)
+
+  (* filter keeps precisely the entries whose summary satisfies the predicate; theta is kept; the result is empty
+     iff nothing is left of a sketch that was not in estimation mode; well-formedness is kept *)
+  Theorem C13_filter_spec : forall (p : S -> bool) (c : compact S), let f := filter_c S p c in
+    c_theta f = c_theta c /\
+    c_entries f = filter (fun e => p (snd e)) (c_entries c) /\
+    (forall h v, In (h, v) (c_entries f) <-> In (h, v) (c_entries c) /\ p v = true) /\
+    c_empty f = negb (c_est S c) && (length (c_entries f) =? 0)%nat /\
+    (c_est S c = true -> c_empty f = false) /\
+    (cwf S c -> cwf S f).
+  Proof. exact (filter_spec S comb). Qed.
+
+  (* A-not-B keeps A's summaries untouched: the result holds exactly A's (key, summary) pairs whose key is below
+     min(theta_A, theta_B) and is not a key of B — by either code path (sort-based or hash-based) *)
+  Theorem C13_a_not_b_keeps_A : forall a b ordered, cwf S a -> cwf S b -> anb_early S a b = false ->
+    let c := a_not_b S a b ordered in
+    c_theta c = N.min (c_theta a) (c_theta b) /\
+    forall h v, In (h, v) (c_entries c) <->
+                In (h, v) (c_entries a) /\ h < N.min (c_theta a) (c_theta b) /\ ~ In h (map fst (c_entries b)).
+  Proof. exact (a_not_b_spec S comb). Qed.
+
+  (* the two early returns (A empty; A has entries and B is empty) give A itself *)
+  Theorem C13_a_not_b_early_is_A : forall a b ordered, cwf S a -> anb_early S a b = true ->
+    let c := a_not_b S a b ordered in
+    c_theta c = c_theta a /\ c_empty c = c_empty a /\ Permutation (c_entries c) (c_entries a) /\ cwf S c.
+  Proof. exact (a_not_b_early S). Qed.
+
+  (* intersection: every key of the result is held by EVERY input and its summary is the policy folded over the
+     inputs' summaries of that key in presentation order, starting from the first input's summary: the COMBINED
+     summary is kept at every stage, each input is combined exactly once *)
+  Theorem C13_intersection_summary : forall cs h v, Forall (cwf S) cs ->
+    In (h, v) (i_ents (inter_run S comb cs)) ->
+    exists v1 vs, summaries S h cs = Some (v1 :: vs) /\ v = fold_left comb vs v1.
+  Proof. exact (inter_summary S comb). Qed.
+
+  Theorem C13_intersection_result : forall cs ordered c, inter_result S (inter_run S comb cs) ordered = Some c ->
+    Permutation (c_entries c) (i_ents (inter_run S comb cs)) /\ c_theta c = i_theta (inter_run S comb cs) /\
+    c_empty c = i_empty (inter_run S comb cs)
+                || ((length (i_ents (inter_run S comb cs)) =? 0)%nat && (i_theta (inter_run S comb cs) =? max_theta)).
+  Proof. exact (inter_result_entries S comb). Qed.
+
+  Theorem C13_intersection_defined_after_first_update : forall cs ordered, Forall (cwf S) cs ->
+    (inter_result S (inter_run S comb cs) ordered = None <-> cs = []).
+  Proof. exact (inter_has_result S comb). Qed.
+
+  (* union: every key of a result is held by some non-empty input and its summary is the first such input's summary
+     (stored as it came) combined by the policy with the summaries of the later inputs holding the key, in
+     presentation order, each exactly once — for any nth_element, any union configuration, ordered or unordered
+     inputs (early stop), whatever the union's table resized or rebuilt *)
+  Theorem C13_union_summary : forall sel,
+    (forall k l, (k < length l)%nat -> nth_post fst k l (sel k l)) ->
+    forall lgn r th0, 5 <= lgn -> forall cs ordered h v, Forall (cwf S) cs ->
+    In (h, v) (c_entries (union_result S sel (union_run S sel comb lgn r th0 cs) ordered)) ->
+    exists v1 vs, hsummaries S h cs = v1 :: vs /\ v = fold_left comb vs v1.
+  Proof. intros sel sel_ok lgn r th0 Hk. exact (union_summary S sel sel_ok comb lgn r th0 Hk). Qed.
+End SetOperations.
+
+(* one intersection step selects exactly the keys held by both sides below theta — the early stop on an ordered
+   input loses nothing (completeness; C13_intersection_summary gives the summaries) *)
+Theorem C13_intersection_step_keys : forall S comb o th ents l h,
+  NoDup (map fst l) -> (o = true -> StronglySorted (klt fst) l) ->
+  (In h (map fst (inter_scan S comb o th ents l)) <-> In h (map fst ents) /\ In h (map fst l) /\ h < th).
+Proof. exact inter_scan_complete. Qed.
+
+(* Theta sketches as operands: compact_tuple_sketch(theta_sketch, summary, ordered) has the Theta sketch's theta,
+   emptiness and exactly its keys, each carrying the given summary, and is well-formed when the Theta sketch is *)
+Theorem C13_from_theta_sketch : forall S (t : compact unit) (v : S) ordered, let c := of_theta S t v ordered in
+  c_theta c = c_theta t /\ c_empty c = c_empty t /\
+  (forall h s, In (h, s) (c_entries c) <-> In h (map fst (c_entries t)) /\ s = v) /\
+  (cwf unit t -> cwf S c).
+Proof. intros S. exact (of_theta_spec S (fun a _ => a)). Qed.
+
+(* the results of the set operations are well-formed again, so the theorems above cover arbitrary SEQUENCES of set
+   operations (results fed to further operations), starting from compacted update sketches (C13_compact_keeps_summaries),
+   filter results (C13_filter_spec) and each other *)
+Theorem C13_a_not_b_result_wf : forall S (a b : compact S) ordered, cwf S a -> cwf S b -> cwf S (a_not_b S a b ordered).
+Proof. exact a_not_b_wf. Qed.
+
+Theorem C13_intersection_result_wf : forall S comb cs ordered c, Forall (cwf S) cs ->
+  inter_result S (inter_run S comb cs) ordered = Some c -> cwf S c.
+Proof. exact inter_result_wf. Qed.
+
+Theorem C13_union_result_wf : forall S comb sel,
+  (forall k l, (k < length l)%nat -> nth_post fst k l (sel k l)) ->
+  forall lgn r th0, 5 <= lgn -> forall cs ordered, Forall (cwf S) cs ->
+  cwf S (union_result S sel (union_run S sel comb lgn r th0 cs) ordered).
+Proof. intros S comb sel sel_ok lgn r th0 Hk. exact (union_result_wf S comb sel sel_ok lgn r th0 Hk). Qed.
+
+(* the tuple union IS the union model of property C02 (coq/ThetaSetDefs.v) at payload type S — same table and union
+   theta after every update, same result — so the C02 theorems on which keys a union returns (exact set expression,
+   theta rule, permutation and form independence; all stated for any payload type and policy) hold for it verbatim *)
+Theorem C13_union_update_is_C02_union : forall S sel comb sh (u : union_st S) sh' (c : compact S),
+  ThetaSetDefs.union_update S sel comb (to_c02 S sh u) (ThetaSetDefs.input_of_compact S sh' c) =
+  if c_empty c then Some (to_c02 S sh u)
+  else if negb (sh' =? sh) then None
+  else Some (to_c02 S sh (union_update S sel comb u c)).
+Proof. exact bridge_union_update. Qed.
+
+Theorem C13_union_result_is_C02_union : forall S sel,
+  (forall k l, (k < length l)%nat -> nth_post fst k l (sel k l)) ->
+  forall sh (u : union_st S) ordered,
+  let a := ThetaSetDefs.union_result S sel (to_c02 S sh u) ordered in
+  let b := union_result S sel u ordered in
+  ThetaSetDefs.in_theta a = c_theta b /\ ThetaSetDefs.in_empty a = c_empty b /\
+  ThetaSetDefs.in_ordered a = c_ordered b /\ ThetaSetDefs.in_entries a = c_entries b /\
+  ThetaSetDefs.in_seed_hash a = sh.
+Proof.
+  intros S sel sel_ok. apply bridge_union_result. intros k l H. destruct (sel_ok k l H) as [Hp _].
+  exact (Permutation_length Hp).
+Qed.
+
+(* ------------------------------------------------------------------------------------------ *)
+(* array-of-doubles = the column-wise instance of the same model (policies of TupleDefs.v with pol = n > 0); the
+   arithmetic summary with the default policies (pol = -1: Summary() = 0, +=) is the one-column case *)
+Theorem C13_array_update_columnwise : forall (n : Z) vs k, (0 < n)%Z -> (k < zn n)%nat ->
+  nth k (fold_policy sm (list Z) (p_create n) (p_upd n) vs) 0%Z = col k vs.
+Proof. exact array_update_columnwise. Qed.
+
+Theorem C13_array_combine_columnwise : forall (n sep : Z) v1 vs k, (0 < n)%Z -> (k < length v1)%nat ->
+  nth k (fold_left (p_comb n sep) vs v1) 0%Z = (nth k v1 0 + col k vs)%Z.
+Proof. exact array_comb_columnwise. Qed.
+
+(* ------------------------------------------------------------------------------------------ *)
+(* the line protocol run against the C++ drives exactly these functions *)
+Theorem C13_protocol_update : forall st r mv pol seed k vals kind args bytes e,
+  reg_get st r = Some (RU pol seed k) -> canon_input kind args = Some bytes ->
+  nz (length vals) = arity pol ->
+  fst (step st (2 :: r :: mv :: nz (length vals) :: vals ++ kind :: args)%Z e) =
+  reg_set st r (RU pol seed (step_op sm ssel k (tup_op sm (list Z) (p_create pol) (p_upd pol) (hash64 seed bytes) vals))).
+Proof.
+  intros st r mv pol seed k vals kind args bytes e Hr Hc Hn. unfold step. rewrite Hr.
+  unfold zn, nz. rewrite Nat2Z.id, firstn_app, firstn_all, Nat.sub_diag, skipn_app, skipn_all, Nat.sub_diag.
+  cbn [firstn skipn app]. rewrite app_nil_r. unfold nz in Hn. rewrite Hn, Z.eqb_refl. cbn [negb]. rewrite Hc. reflexivity.
+Qed.
+
+Theorem C13_protocol_union_update : forall st r r2 pol seed u g c e,
+  reg_get st r = Some (RUn pol seed u) -> reg_get st r2 = Some g ->
+  view g = Some (pol, compute_seed_hash seed, c) -> c_empty c = false ->
+  fst (step st [13; r; r2; 0]%Z e) = reg_set st r (RUn pol seed (union_update sm ssel (p_comb pol sep_union) u c)).
+Proof.
+  intros st r r2 pol seed u g c e Hr Hg Hv He. unfold step. rewrite Hr, Hg, Hv, Z.eqb_refl, He, N.eqb_refl. reflexivity.
+Qed.
+
+Theorem C13_protocol_intersection_update : forall st r r2 pol seed i g c e,
+  reg_get st r = Some (RIn pol seed i) -> reg_get st r2 = Some g ->
+  view g = Some (pol, compute_seed_hash seed, c) -> i_empty i = false ->
+  fst (step st [17; r; r2; 0]%Z e) = reg_set st r (RIn pol seed (inter_update sm (p_comb pol sep_inter) i c)).
+Proof.
+  intros st r r2 pol seed i g c e Hr Hg Hv He. unfold step. rewrite Hr, Hg, Hv, Z.eqb_refl, He, N.eqb_refl.
+  rewrite andb_false_r. reflexivity.
+Qed.
+
+(* ------------------------------------------------------------------------------------------ *)
+(* non-vacuity *)
+(* (1) a concrete history at lg_k = 5, p = 0.5 with Murmur hashes: 600 updates over 150 keys (every key offered
+       4 times) with the "log" policy: passes through resize and rebuild; every retained summary is the 4-value fold *)
+Definition nv_ts (n : nat) : list (top (list Z)) :=
+  map (fun i => TUpdate (hash64 9001 (N_to_le_bytes 8 (N.of_nat (i mod 150)))) [Z.of_nat i]) (seq 1 n).
+
+Definition sm_eqb (a b : sm) : bool := (length a =? length b)%nat && forallb (fun p => Z.eqb (fst p) (snd p)) (combine a b).
+
+Example C13_nonvacuous_update :
+  let ts := nv_ts 600 in
+  let s := run_ops sm ssel 5 1 (2 ^ 62) (map (op_of_top sm (list Z) (p_create 0) (p_upd 0)) ts) in
+  lg_cur s = 6 /\ (theta s <? 2 ^ 62) = true /\ (32 <=? num s) = true /\
+  forallb (fun e => sm_eqb (snd e) (fold_policy sm (list Z) (p_create 0) (p_upd 0) (offered_with (list Z) (fst e) ts [])))
+          (entries sm s) = true /\
+  forallb (fun e => (length (snd e) =? 5)%nat) (entries sm s) = true /\
+  sortN (keys sm s) = sortN (keys unit (run_ops unit sel_sort 5 1 (2 ^ 62) (theta_ops (list Z) ts))).
+Proof. vm_compute. repeat split; reflexivity. Qed.
+
+(* array-of-doubles instance with 2 columns *)
+Example C13_nonvacuous_array :
+  fold_policy sm (list Z) (p_create 2) (p_upd 2) [[1; 2]; [3; 4]; [5; 6]]%Z = [9; 12]%Z /\
+  fold_left (p_comb 2 sep_union) [[3; 4]; [5; 6]]%Z [1; 2]%Z = [9; 12]%Z /\ col 1 [[1; 2]; [3; 4]; [5; 6]]%Z = 12%Z.
+Proof. vm_compute. repeat split; reflexivity. Qed.
+
+(* (2) concrete set operations with the log policy (Z lists): the hypotheses hold and the conclusions are informative *)
+Definition nv_a : compact sm := mk_compact sm max_theta false true [(1, [(10)%Z]); (3, [(30)%Z]); (5, [(50)%Z])].
+Definition nv_b : compact sm := mk_compact sm max_theta false false [(7, [(71)%Z]); (3, [(31)%Z]); (5, [(51)%Z])].
+Definition nv_c : compact sm := mk_compact sm 6 false true [(3, [(32)%Z])].
+
+Lemma nv_wf : Forall (cwf sm) [nv_a; nv_b; nv_c].
+Proof.
+  repeat constructor; simpl; try (intros H; discriminate H); try (intros [H|H]; try discriminate H; try contradiction);
+  try (intuition discriminate); unfold klt; simpl; try lia.
+Qed.
+
+Example C13_nonvacuous_setops :
+  i_ents (inter_run sm (p_comb 0 sep_inter) [nv_a; nv_b; nv_c]) = [(3, [(30)%Z; (-9)%Z; (31)%Z; (-9)%Z; (32)%Z])] /\
+  option_map (@c_entries sm) (Some (union_result sm ssel (union_run sm ssel (p_comb 0 sep_union) 5 0 max_theta [nv_a; nv_b; nv_c]) true))
+    = Some [(1, [(10)%Z]); (3, [(30)%Z; (-8)%Z; (31)%Z; (-8)%Z; (32)%Z]); (5, [(50)%Z; (-8)%Z; (51)%Z])] /\
+  c_theta (union_result sm ssel (union_run sm ssel (p_comb 0 sep_union) 5 0 max_theta [nv_a; nv_b; nv_c]) true) = 6 /\
+  c_entries (a_not_b sm nv_a nv_b true) = [(1, [(10)%Z])] /\ anb_early sm nv_a nv_b = false /\
+  c_entries (filter_c sm (p_pred 0 0) nv_a) = [(3, [(30)%Z])].
+Proof. vm_compute. repeat split; reflexivity. Qed.
+
+Print Assumptions C13_same_keys_as_theta_sketch.
+Print Assumptions C13_keys_are_the_theta_sample.
+Print Assumptions C13_summary_is_fold.
+Print Assumptions C13_compact_keeps_summaries.
+Print Assumptions C13_payload_is_composition.
+Print Assumptions C13_filter_spec.
+Print Assumptions C13_a_not_b_keeps_A.
+Print Assumptions C13_a_not_b_early_is_A.
+Print Assumptions C13_intersection_summary.
+Print Assumptions C13_intersection_result.
+Print Assumptions C13_intersection_defined_after_first_update.
+Print Assumptions C13_union_summary.
+Print Assumptions C13_intersection_step_keys.
+Print Assumptions C13_from_theta_sketch.
+Print Assumptions C13_a_not_b_result_wf.
+Print Assumptions C13_intersection_result_wf.
+Print Assumptions C13_union_result_wf.
+Print Assumptions C13_union_update_is_C02_union.
+Print Assumptions C13_union_result_is_C02_union.
+Print Assumptions C13_array_update_columnwise.
+Print Assumptions C13_array_combine_columnwise.
+Print Assumptions C13_protocol_update.
+Print Assumptions C13_protocol_union_update.
+Print Assumptions C13_protocol_intersection_update.
